@@ -100,7 +100,7 @@ impl Prop for P20 {
                 str_to_json(&s)
             })
             .collect();
-        let lp: Vec<String> = vec!["a".into(), "b c".into(), "é".into(), the_r.clone(), "*".into(), "x y  z".into(), "$(w)".into(), "-n".into(), "".into(), "0".into(), "q".into()];
+        let lp: Vec<String> = vec!["a".into(), "b c".into(), "é".into(), the_r.clone(), "*".into(), "x y  z".into(), "$(w)".into(), "-n".into(), "".into(), "0".into(), "q".into(), "t ".into(), "u\t".into()];
         let nlines = rng.below(6);
         let lines: Vec<Value> = (0..nlines)
             .map(|_| {
